@@ -118,6 +118,27 @@ impl Integrand {
             exact_poly_integral(&self.c, &d(a), &d(b))
         }
     }
+    /// the antiderivative's evaluation at t stays inside C01's domain: every non-zero monomial c_i·t^(i+1) and every
+    /// bare power t^j (j >= 2) it may form is within 2^±900 (what `evaluate` returns when a monomial overflows or
+    /// underflows is pinned by no property, so the value clauses do not judge such points)
+    fn terms_ok(&self, t: f64) -> bool {
+        if self.log || t == 0.0 || !t.is_finite() {
+            return true;
+        }
+        let dt = d(t);
+        let mut pw = dt.clone();
+        for i in 0..self.c.len() {
+            // pw = t^(i+1)
+            if i + 1 >= 2 && !in_range(&pw, 900) {
+                return false;
+            }
+            if self.c[i] != 0.0 && !in_range(&d(self.c[i]).mul(&pw), 900) {
+                return false;
+            }
+            pw = pw.mul(&dt);
+        }
+        true
+    }
     /// magnitude of the antiderivative's terms at t
     fn maj(&self, t: f64) -> Dy {
         if self.log {
@@ -315,10 +336,12 @@ impl Prop for C11 {
         ctx.comparisons += 1;
         let f0k = pv(&obs.int_piece_vals, 0, 0);
         let tol0 = factor(0, &w_int[0]);
-        if !within(f0k, &d(ky), &tol0) {
+        if pieces[0].terms_ok(kx) && !within(f0k, &d(ky), &tol0) {
             fail!("{tyname}.integral(k0=({}, {})): first piece evaluates to {} at k0.x (error {:.3e} × allowed {}); ends {:?}", hex(kx), hex(ky), hex(f0k), ratio(f0k, &d(ky), &tol0), tol0.show(), ends);
         }
-        ctx.ratio("first piece through k0", ratio(f0k, &d(ky), &tol0));
+        if pieces[0].terms_ok(kx) {
+            ctx.ratio("first piece through k0", ratio(f0k, &d(ky), &tol0));
+        }
         for (name, vals, w) in [("integral(k0)", &obs.int_piece_vals, &w_int), ("indefinite()", &obs.ind_piece_vals, &w_ind)] {
             // ---- clause 3: continuity at interior breakpoints ----
             for i in 0..n.saturating_sub(1) {
@@ -326,6 +349,9 @@ impl Prop for C11 {
                 let b = pv(vals, i + 1, 0); // F_{i+1}(e_i)  (left point of piece i+1 is e_i)
                 ctx.comparisons += 1;
                 let tol = factor(i + 1, &w[i + 1]);
+                if !pieces[i].terms_ok(ends[i]) || !pieces[i + 1].terms_ok(ends[i]) {
+                    continue;
+                }
                 if !a.is_finite() || !b.is_finite() || !d(a).sub(&d(b)).abs().le(&tol) {
                     fail!(
                         "{tyname}.{name}: pieces #{i} and #{} disagree at the breakpoint {}: {} vs {} (allowed {}); ends {:?}, k0=({}, {})",
@@ -343,7 +369,7 @@ impl Prop for C11 {
                 ctx.comparisons += 1;
                 let ma = pieces[i].maj(a);
                 let mb = pieces[i].maj(b);
-                if !in_range(&ma, 800) || !in_range(&mb, 800) {
+                if !in_range(&ma, 800) || !in_range(&mb, 800) || !pieces[i].terms_ok(a) || !pieces[i].terms_ok(b) {
                     continue;
                 }
                 let tol = factor(i, &w[i].add(&ma).add(&mb));
@@ -375,7 +401,7 @@ impl Prop for C11 {
                     exact = exact.add(&pieces[j].integral(ends[j - 1], t));
                 }
                 let mt = pieces[j].maj(t);
-                if !in_range(&mt, 800) {
+                if !in_range(&mt, 800) || !pieces[j].terms_ok(t) {
                     continue;
                 }
                 let tol = factor(j, &w_int[j].add(&mt));
